@@ -57,7 +57,7 @@ def plan(tier, seed):
     specs = [{"kind": "rule_seq", "len": n, "first": i} for i in range(len(RULE_VOCAB))]
     specs += [{"kind": "layer_seq", "len": 5 if tier == "quick" else 6, "third": i} for i in range(len(c16.RULE_VOCAB))]
     specs += [{"kind": "mutations", "part": i, "parts": 4} for i in range(4)] + [{"kind": "diagram"}, {"kind": "entry"}]
-    specs += [{"kind": "misspelt", "n": 250 if tier == "quick" else 6000} for _ in range(4 if tier == "quick" else 10)]
+    specs += [{"kind": "misspelt", "n": 250 if tier == "quick" else 20000} for _ in range(4 if tier == "quick" else 12)]
     return specs
 
 
